@@ -1037,6 +1037,10 @@ class World:
             got = ' '.join(found.get(where, []))
             if where in mine:
                 want = mine[where]
+                if want in found.get(where, []) and len(found[where]) > 1:
+                    # the expected attribute is there, next to further serde attributes whose effect is not modelled
+                    got = want
+                    self.degraded[f'{modpath}::{name}'] = (f'unsupported: additional serde attributes on {where}: {" ".join(found[where])}')
                 fid = re.sub(r'\W+', '_', where)
                 text += (f'\n// {labs}  (serde attribute of {where})\npub proof fn serde_attr_{fid}()\n    ensures {rust_str(got)}@ == {rust_str(want)}@\n'
                          f'{{ reveal_strlit({rust_str(got)}); reveal_strlit({rust_str(want)}); }}\n')
